@@ -399,4 +399,543 @@ Section Facts.
     apply negb_false_iff, Nat.eqb_eq in C. subst m0.
     simpl. apply gs_add; [exact M|reflexivity].
   Qed.
+
+  Lemma base_add_variable_ret name value dt s s' u :
+    base_add_variable name value dt s = (s', Ret u) ->
+    index s' = index s ++ [name] /\ names s' = names s /\ mem name (index s) = false /\
+    exists v, vars s' = assoc_set name v (vars s) /\ vshape v = [n_of s].
+  Proof.
+    unfold Container.base_add_variable. intros H.
+    destruct (mem name (index s)) eqn:M; [inversion H|].
+    match type of H with context [match ?x with Ret _ => _ | Raise _ => _ end] => destruct x as [[[d0 m0] cells0]|e] end; [|inversion H].
+    match type of H with context [match ?x with Ret _ => _ | Raise _ => _ end] => destruct x as [[d1 cells1]|e] end; [|inversion H].
+    destruct (negb (Nat.eqb m0 (n_of s))) eqn:C; [inversion H|].
+    apply negb_false_iff, Nat.eqb_eq in C. subst m0.
+    inversion H; subst; simpl. repeat split. eexists. split; reflexivity.
+  Qed.
+
+  Lemma base_add_variable_raise name value dt s s' e :
+    base_add_variable name value dt s = (s', Raise e) -> s' = s.
+  Proof.
+    unfold Container.base_add_variable. intros H.
+    destruct (mem name (index s)) eqn:M; [inversion H; reflexivity|].
+    match type of H with context [match ?x with Ret _ => _ | Raise _ => _ end] => destruct x as [[[d0 m0] cells0]|e0] end; [|inversion H; reflexivity].
+    match type of H with context [match ?x with Ret _ => _ | Raise _ => _ end] => destruct x as [[d1 cells1]|e0] end; [|inversion H; reflexivity].
+    destruct (negb (Nat.eqb m0 (n_of s))); inversion H; reflexivity.
+  Qed.
+
+  Lemma add_variable_good name value dt s : good s (fst (add_variable name value dt s)).
+  Proof.
+    unfold Container.add_variable.
+    destruct (kind s) eqn:K; [apply base_add_variable_good| |];
+      (set (dt' := match dt with None => dflt s | Some _ => dt end);
+       pose proof (base_add_variable_good name value dt' s) as G;
+       destruct (base_add_variable name value dt' s) as [s' [u|e]] eqn:B; simpl in *; [|exact G];
+       apply base_add_variable_ret in B as [BI _];
+       eapply gs_trans; [exact G|]; apply gs_names; rewrite BI; apply in_app_iff; right; left; reflexivity).
+  Qed.
+
+  Lemma step_good o s : good s (fst (step o s)).
+  Proof.
+    destruct o; simpl.
+    - apply add_variable_good.
+    - apply setattr_good.
+    - apply setitem_good.
+    - apply replace_values_good.
+    - apply add_attribute_good.
+  Qed.
+
+  Lemma run_good ops s : good s (run ops s).
+  Proof.
+    revert s. induction ops as [|o ops IH]; intros s; simpl; [apply gs_refl|].
+    eapply gs_trans; [apply step_good | apply IH].
+  Qed.
+
+  (* ================================================================ the invariant over arbitrary histories *)
+  Theorem step_preserves_inv o s : Inv s -> Inv (fst (step o s)).
+  Proof. intros H. eapply good_inv; [apply step_good | exact H]. Qed.
+
+  Theorem reachable_inv ops s : Inv s -> Inv (run ops s).
+  Proof. intros H. eapply good_inv; [apply run_good | exact H]. Qed.
+
+  Theorem reachable_inv_every_state ops s : Inv s -> Forall (fun r => Inv (fst r)) (run_trace ops s).
+  Proof.
+    revert s. induction ops as [|o ops IH]; intros s H; simpl; constructor.
+    - apply step_preserves_inv. exact H.
+    - apply IH. apply step_preserves_inv. exact H.
+  Qed.
+
+  (* a variable, once in the index, stays there with the dtype it has *)
+  Theorem dtype_kept ops s x :
+    In x (index s) -> In x (index (run ops s)) /\ dtype_of (run ops s) x = dtype_of s x.
+  Proof.
+    intros Hx. destruct (good_mono _ _ (run_good ops s)) as [I [D _]].
+    split; [apply I; exact Hx | apply D; exact Hx].
+  Qed.
+
+  Theorem span_kept ops s : span (run ops s) = span s /\ kind (run ops s) = kind s.
+  Proof. apply good_span. apply run_good. Qed.
+
+  Lemma add_variable_ret name value dt s s' u :
+    add_variable name value dt s = (s', Ret u) ->
+    In name (index s') /\ mem name (index s) = false /\ exists d, dtype_of s' name = Some d.
+  Proof.
+    unfold Container.add_variable. intros H.
+    assert (B : forall dt0 s1 u1, base_add_variable name value dt0 s = (s1, Ret u1) ->
+                In name (index s1) /\ mem name (index s) = false /\ exists d, dtype_of s1 name = Some d).
+    { intros dt0 s1 u1 B. apply base_add_variable_ret in B as [BI [_ [M [v [BV _]]]]].
+      split; [rewrite BI; apply in_app_iff; right; left; reflexivity|]. split; [exact M|].
+      exists (vdtype v). unfold dtype_of. rewrite BV, assoc_set_eq. reflexivity. }
+    destruct (kind s); [apply (B _ _ _ H)| |];
+      (destruct (base_add_variable name value (match dt with None => dflt s | Some _ => dt end) s) as [s1 [u1|e]] eqn:E; [|inversion H];
+       inversion H; subst; simpl; apply (B _ _ _ E)).
+  Qed.
+
+  (* "the dtype it was created with": after a successful add_variable, whatever follows keeps that dtype *)
+  Theorem dtype_as_created name value dt s s1 u ops :
+    add_variable name value dt s = (s1, Ret u) ->
+    exists d, dtype_of s1 name = Some d /\ dtype_of (run ops s1) name = Some d /\ In name (index (run ops s1)).
+  Proof.
+    intros H. apply add_variable_ret in H as [Hin [_ [d Hd]]].
+    destruct (dtype_kept ops s1 name Hin) as [I D].
+    exists d. split; [exact Hd|]. split; [rewrite D; exact Hd | exact I].
+  Qed.
+
+  (* ================================================================ values / size *)
+  Lemma rows_inv nms s :
+    InvV s -> incl nms (index s) ->
+    exists l, rows nms (vars s) = Ret l /\ length l = length nms /\ Forall (fun v => vshape v = [n_of s]) l /\
+              Forall2 (fun x v => assoc x (vars s) = Some v) nms l.
+  Proof.
+    intros [ND [HI HV]]. induction nms as [|x nms IH]; intros Hincl; simpl.
+    - exists []. repeat split; constructor.
+    - assert (Hx : In x (index s)) by (apply Hincl; left; reflexivity).
+      destruct (assoc x (vars s)) as [v|] eqn:A; [|exfalso; exact (HI x Hx A)].
+      destruct IH as [l [R [L [F F2]]]]; [intros y Hy; apply Hincl; right; exact Hy|].
+      rewrite R. exists (v :: l). simpl. repeat split; [congruence| |].
+      + constructor; [apply (HV x); exact A | exact F].
+      + constructor; assumption.
+  Qed.
+
+  Lemma row_names_incl s : Inv s -> incl (row_names s) (index s).
+  Proof.
+    intros [_ HN]. unfold row_names. destruct (kind s) eqn:K; [apply incl_refl| |]; apply HN; congruence.
+  Qed.
+
+  (* `values` never raises on a reachable object; it is the rows-by-periods stack of the series in declaration
+     order (index order; `names` order for models), and `size` is its element count (+ the submodels' sizes) *)
+  Theorem values_stack s :
+    Inv s ->
+    values_shape s = Ret (match row_names s with [] => [0] | _ => [length (row_names s); n_of s] end) /\
+    (exists l, rows (row_names s) (vars s) = Ret l /\ Forall2 (fun x v => assoc x (vars s) = Some v) (row_names s) l /\
+               Forall (fun v => vshape v = [n_of s]) l) /\
+    size_of s = length (row_names s) * n_of s + match kind s with CLinker extra => extra | _ => 0 end.
+  Proof.
+    intros H. pose proof (row_names_incl s H) as Hincl. destruct H as [HVV HNN].
+    destruct (rows_inv _ _ HVV Hincl) as [l [R [L [F F2]]]].
+    split; [|split].
+    - unfold values_shape. rewrite R. destruct l as [|v0 r].
+      + destruct (row_names s); [reflexivity|discriminate].
+      + inversion F as [|? ? Hv0 Fr]; subst.
+        assert (FB : forallb (fun v => if list_eq_dec Nat.eq_dec (vshape v) (vshape v0) then true else false) r = true).
+        { apply forallb_forall. intros v Hv. rewrite Forall_forall in Fr. rewrite (Fr v Hv), Hv0.
+          destruct (list_eq_dec Nat.eq_dec [n_of s] [n_of s]); [reflexivity|congruence]. }
+        rewrite FB, Hv0. destruct (row_names s) as [|a t]; [discriminate|]. simpl in L. simpl.
+        f_equal. f_equal. lia.
+    - exists l. repeat split; assumption.
+    - unfold size_of, row_names. destruct (kind s); lia.
+  Qed.
+
+  (* ================================================================ failed assignments *)
+  Lemma setattr_var_err name value s s' e :
+    setattr_var name value s = (s', Raise e) -> s' = s \/ CastFail e.
+  Proof.
+    unfold Container.setattr_var. intros H.
+    destruct (assoc name (vars s)) as [v|] eqn:A; [|inversion H; left; reflexivity].
+    destruct (is_sequence value).
+    - destruct (as_array value) as [[sh cells]|e0]; [|inversion H; left; reflexivity].
+      destruct (cast_all (pycast (vdtype v)) cells) as [cells'|e0]; [|inversion H; left; reflexivity].
+      destruct (negb (Nat.eqb (length sh) 1) || negb (Nat.eqb (hd 0 sh) (n_of s)))%bool; inversion H; left; reflexivity.
+    - destruct (vshape v) as [|m [|m' r]]; try (inversion H; left; reflexivity).
+      destruct (assign_inplace v (seq 0 m) value) as [v' eo] eqn:AI.
+      destruct eo as [ex|]; inversion H; subst.
+      apply assign_inplace_err in AI as [->|C]; [left|right; exact C].
+      rewrite (assoc_set_same _ _ _ A). apply set_vars_same.
+  Qed.
+
+  Lemma setattr_on_var name value hint s :
+    mem name (index s) = true -> setattr name value hint s = setattr_var name value s.
+  Proof.
+    intros M. unfold Container.setattr. rewrite M.
+    destruct (negb (String.eqb name "strict")), (strict s), (reg_mem name (registry s)); reflexivity.
+  Qed.
+
+  Lemma obj_setattr_err name value s s' e :
+    name <> "values" -> obj_setattr name value s = (s', Raise e) -> s' = s.
+  Proof.
+    intros NV. unfold Container.obj_setattr. intros H.
+    destruct (String.eqb name "strict").
+    - destruct (truthy value); inversion H; reflexivity.
+    - destruct (String.eqb name "values") eqn:E; [apply String.eqb_eq in E; contradiction|].
+      destruct (String.eqb name "size" || String.eqb name "nbytes")%bool; [inversion H; reflexivity|].
+      match type of H with context [if ?c then _ else _] => destruct c end; inversion H; reflexivity.
+  Qed.
+
+  Lemma add_attribute_err name value s s' e :
+    name <> "values" -> add_attribute name value s = (s', Raise e) -> s' = s.
+  Proof.
+    intros NV. unfold Container.add_attribute. intros H.
+    destruct (mem name (index s)); [inversion H; reflexivity|].
+    destruct (reg_mem name (registry s)); [inversion H; reflexivity|].
+    destruct (obj_setattr name value s) as [s1 [u|e1]] eqn:O; inversion H; subst.
+    eapply obj_setattr_err; eassumption.
+  Qed.
+
+  Lemma setattr_err name value hint s s' e :
+    name <> "values" -> setattr name value hint s = (s', Raise e) -> s' = s \/ CastFail e.
+  Proof.
+    intros NV. unfold Container.setattr. intros H.
+    match type of H with context [if ?c then _ else _] => destruct c end.
+    - destruct (alternatives hint (row_names s)) as [|a [|b r]]; inversion H; left; reflexivity.
+    - destruct (negb (mem name (index s))).
+      + destruct (reg_mem name (registry s)); left;
+          [eapply obj_setattr_err; eassumption | eapply add_attribute_err; eassumption].
+      + eapply setattr_var_err; eassumption.
+  Qed.
+
+  Lemma setitem_err k value s s' e :
+    setitem k value s = (s', Raise e) -> s' = s \/ CastFail e.
+  Proof.
+    unfold Container.setitem. intros H. destruct k as [name|name l|name a b st| |]; try (inversion H; left; reflexivity).
+    - destruct (negb (mem name (index s))) eqn:M; [inversion H; left; reflexivity|].
+      apply negb_false_iff in M. rewrite (setattr_on_var _ _ _ _ M) in H. eapply setattr_var_err; eassumption.
+    - destruct (locate (span s) l) as [p|e0]; [|inversion H; left; reflexivity].
+      destruct (assoc name (vars s)) as [v|] eqn:A.
+      + destruct (assign_item v p value) as [v' eo] eqn:AI.
+        destruct eo as [ex|]; inversion H; subst.
+        apply assign_item_err in AI. subst v'. left.
+        rewrite (assoc_set_same _ _ _ A). apply set_vars_same.
+      + destruct (hidden_lookup name s); try (inversion H; left; reflexivity).
+        destruct (Nat.ltb p (length (registry s))); inversion H; left; reflexivity.
+    - destruct (resolve_slice (span s) a b st) as [[[sl el] stp]|e0]; [|inversion H; left; reflexivity].
+      destruct (assoc name (vars s)) as [v|] eqn:A.
+      + destruct (vshape v) as [|m [|m' r]]; try (inversion H; left; reflexivity).
+        destruct (slice_positions m sl el stp) as [ps|]; [|inversion H; left; reflexivity].
+        destruct (assign_inplace v ps value) as [v' eo] eqn:AI.
+        destruct eo as [ex|]; inversion H; subst.
+        apply assign_inplace_err in AI as [->|C]; [left|right; exact C].
+        rewrite (assoc_set_same _ _ _ A). apply set_vars_same.
+      + destruct (hidden_lookup name s); inversion H; left; reflexivity.
+  Qed.
+
+  Lemma add_variable_err name value dt s s' e :
+    add_variable name value dt s = (s', Raise e) -> s' = s.
+  Proof.
+    unfold Container.add_variable. intros H.
+    destruct (kind s); [eapply base_add_variable_raise; eassumption| |];
+      (destruct (base_add_variable name value (match dt with None => dflt s | Some _ => dt end) s) as [s1 [u1|e1]] eqn:E;
+       inversion H; subst; eapply base_add_variable_raise; eassumption).
+  Qed.
+
+  (* the single-variable operations: everything except the bulk ones (replace_values, the values setter) *)
+  Definition single (o : op) : Prop :=
+    match o with
+    | AddVariable _ _ _ | SetItem _ _ => True
+    | SetAttr n _ _ | AddAttribute n _ => n <> "values"
+    | ReplaceValues _ => False
+    end.
+
+  (* A raising single-variable operation leaves the WHOLE state unchanged, unless the exception is one that an
+     element cast of NumPy raised part-way through an in-place copy (then the leading cells are already written:
+     see partial_write_refuted in ContainerExamples.v; shape and dtype are intact by step_preserves_inv/dtype_kept). *)
+  Theorem failed_single_assignment_no_change o s s' e :
+    single o -> step o s = (s', Raise e) -> s' = s \/ CastFail e.
+  Proof.
+    destruct o as [name v dt|name v hint|k v|kvs|name v]; simpl; intros S H.
+    - left. eapply add_variable_err; eassumption.
+    - eapply setattr_err; eassumption.
+    - eapply setitem_err; eassumption.
+    - contradiction.
+    - left. eapply add_attribute_err; eassumption.
+  Qed.
+
+  (* add_variable, and every rejection that is not NumPy's, is atomic for ALL operations that address one name *)
+  Theorem add_variable_atomic name value dt s s' e :
+    add_variable name value dt s = (s', Raise e) -> s' = s.
+  Proof. apply add_variable_err. Qed.
+
+  Theorem duplicate_name_rejected name value dt s :
+    mem name (index s) = true -> add_variable name value dt s = (s, Raise DuplicateNameError).
+  Proof.
+    intros M. unfold Container.add_variable, Container.base_add_variable. rewrite M.
+    destruct (kind s); reflexivity.
+  Qed.
+
+  Theorem duplicate_attribute_rejected name value s :
+    (mem name (index s) || reg_mem name (registry s))%bool = true ->
+    add_attribute name value s = (s, Raise DuplicateNameError).
+  Proof.
+    intros M. unfold Container.add_attribute.
+    destruct (mem name (index s)); [reflexivity|]. simpl in M. rewrite M. reflexivity.
+  Qed.
+
+  Theorem unknown_name_item_rejected name value s :
+    mem name (index s) = false -> setitem (KName name) value s = (s, Raise KeyError).
+  Proof. intros M. unfold Container.setitem. rewrite M. reflexivity. Qed.
+
+  (* obj[name, label] = v and obj[name, a:b:s] = v with `name` not a variable: KeyError (missing label / missing
+     name) or TypeError ('strict', and a linker's 'LAGS'/'LEADS'), nothing changes — PROVIDED '_' + name is not the
+     attribute registry itself: see unknown_name_accepted_refuted for name = "attributes". *)
+  Theorem unknown_name_label_rejected name l value s :
+    assoc name (vars s) = None -> name <> "attributes" ->
+    (forall x, assoc (String "_" name) (adict s) <> Some x) ->
+    exists e, setitem (KLabel name l) value s = (s, Raise e) /\ (e = KeyError \/ e = TypeError).
+  Proof.
+    intros A NA NU. unfold Container.setitem. rewrite A.
+    destruct (locate (span s) l) as [p|e0] eqn:L.
+    - unfold hidden_lookup. apply String.eqb_neq in NA. rewrite NA.
+      destruct (String.eqb name "strict"); [eexists; split; [reflexivity|right; reflexivity]|].
+      match goal with |- context [if ?c then HNoItemAssign else _] => destruct c end;
+        [eexists; split; [reflexivity|right; reflexivity]|].
+      destruct (assoc (String "_" name) (adict s)) as [x|] eqn:U; [exfalso; exact (NU x eq_refl)|].
+      eexists; split; [reflexivity|left; reflexivity].
+    - unfold locate in L. destruct (find_pos l (span s)); inversion L; subst.
+      eexists; split; [reflexivity|left; reflexivity].
+  Qed.
+
+  Lemma locate_err sp l e : locate sp l = Raise e -> e = KeyError.
+  Proof. unfold locate. destruct (find_pos l sp); intros H; inversion H; reflexivity. Qed.
+
+  Lemma resolve_slice_err sp a b st e : resolve_slice sp a b st = Raise e -> e = KeyError \/ e = IndexError.
+  Proof.
+    unfold resolve_slice. intros H.
+    destruct a as [a'|]; destruct b as [b'|]; destruct sp as [|x r]; cbv beta iota zeta in H;
+      repeat (match type of H with
+              | context [match locate ?s0 ?l0 with _ => _ end] =>
+                  let E := fresh "E" in
+                  destruct (locate s0 l0) eqn:E; [|apply locate_err in E; subst]; cbv beta iota zeta in H
+              end);
+      inversion H; subst; auto.
+  Qed.
+
+  Theorem unknown_name_slice_rejected name a b st value s :
+    assoc name (vars s) = None -> name <> "attributes" ->
+    (forall x, assoc (String "_" name) (adict s) <> Some x) ->
+    exists e, setitem (KSlice name a b st) value s = (s, Raise e) /\ (e = KeyError \/ e = TypeError \/ e = IndexError).
+  Proof.
+    intros A NA NU. unfold Container.setitem. rewrite A.
+    destruct (resolve_slice (span s) a b st) as [[[sl el] stp]|e0] eqn:R.
+    - unfold hidden_lookup. apply String.eqb_neq in NA. rewrite NA.
+      destruct (String.eqb name "strict"); [eexists; split; [reflexivity|right; left; reflexivity]|].
+      match goal with |- context [if ?c then HNoItemAssign else _] => destruct c end;
+        [eexists; split; [reflexivity|right; left; reflexivity]|].
+      destruct (assoc (String "_" name) (adict s)) as [x|] eqn:U; [exfalso; exact (NU x eq_refl)|].
+      eexists; split; [reflexivity|left; reflexivity].
+    - exists e0. split; [reflexivity|].
+      apply resolve_slice_err in R. destruct R as [->| ->]; auto.
+  Qed.
+
+  (* ================================================================ bulk operations: exactly a prefix is applied *)
+  Theorem replace_values_prefix kvs s s' e :
+    replace_values kvs s = (s', Raise e) ->
+    exists pre k v post s1,
+      kvs = pre ++ (k, v) :: post /\
+      replace_values pre s = (s1, Ret tt) /\
+      setitem (KName k) v s1 = (s', Raise e).
+  Proof.
+    revert s. induction kvs as [|[k v] kvs IH]; intros s H; [inversion H|].
+    change (replace_values ((k, v) :: kvs) s) with
+      (match setitem (KName k) v s with (s1, Ret _) => replace_values kvs s1 | (s1, Raise e1) => (s1, Raise e1) end) in H.
+    destruct (setitem (KName k) v s) as [s1 [u|e1]] eqn:E.
+    - destruct (IH _ H) as (pre & k' & v' & post & s2 & K & P & F).
+      exists ((k, v) :: pre), k', v', post, s2. split; [rewrite K; reflexivity|]. split; [|exact F].
+      change (replace_values ((k, v) :: pre) s) with
+        (match setitem (KName k) v s with (s1, Ret _) => replace_values pre s1 | (s1, Raise e1) => (s1, Raise e1) end).
+      rewrite E. exact P.
+    - inversion H; subst. exists [], k, v, kvs, s. split; [reflexivity|]. split; [reflexivity|exact E].
+  Qed.
+
+  Theorem replace_values_all_applied kvs s s' :
+    replace_values kvs s = (s', Ret tt) ->
+    forall k v, In (k, v) kvs -> mem k (index s') = true.
+  Proof.
+    revert s. induction kvs as [|[k v] kvs IH]; intros s H k0 v0 Hin; [contradiction|].
+    change (replace_values ((k, v) :: kvs) s) with
+      (match setitem (KName k) v s with (s1, Ret _) => replace_values kvs s1 | (s1, Raise e1) => (s1, Raise e1) end) in H.
+    destruct (setitem (KName k) v s) as [s1 [u|e1]] eqn:E; [|inversion H].
+    destruct Hin as [Heq|Hin]; [|eapply IH; eassumption].
+    inversion Heq; subst k0 v0.
+    unfold Container.setitem in E. destruct (negb (mem k (index s))) eqn:M; [inversion E|].
+    apply negb_false_iff, mem_In in M.
+    pose proof (setitem_good (KName k) v s) as G1. unfold Container.setitem in G1. 
+    assert (G : good s s').
+    { eapply gs_trans; [exact (eq_ind _ (fun r => good s (fst r)) (setitem_good (KName k) v s) _ eq_refl)|].
+      pose proof (replace_values_good kvs (fst (setitem (KName k) v s))) as G2.
+      unfold Container.setitem in G2 |- *. rewrite (proj2 (negb_false_iff _) (proj2 (mem_In _ _) M)) in G2 |- *.
+      rewrite E in G2 |- *. simpl in G2 |- *. rewrite H in G2. exact G2. }
+    apply mem_In. apply (proj1 (good_mono _ _ G)). exact M.
+  Qed.
+
+  (* the values setter: a replacement array of the wrong shape is rejected before anything is touched *)
+  Theorem values_setter_wrong_shape sh dt cells s vsh :
+    values_shape s = Ret vsh -> sh <> vsh ->
+    values_setter (OArr sh dt cells) s = (s, Raise DimensionError).
+  Proof.
+    intros V N. unfold Container.values_setter. rewrite V.
+    destruct (list_eq_dec Nat.eq_dec sh vsh); [contradiction|reflexivity].
+  Qed.
+
+  (* ================================================================ strict *)
+  (* with strict=True an assignment to a name that is neither a variable nor a registered attribute raises
+     AttributeError (NotImplementedError when the closest match is ambiguous) and changes NOTHING; the suggestion is
+     the candidate(s) whose lower-case form difflib picked (the oracle `hint`) *)
+  Theorem strict_blocks_new_attributes name value hint s :
+    strict s = true -> name <> "strict" ->
+    mem name (index s) = false -> reg_mem name (registry s) = false ->
+    setattr name value hint s =
+      (s, Raise (match alternatives hint (row_names s) with _ :: _ :: _ => NotImplementedError | _ => AttributeError end)).
+  Proof.
+    intros S N M R. unfold Container.setattr. rewrite S, M, R.
+    apply String.eqb_neq in N. rewrite N. simpl.
+    destruct (alternatives hint (row_names s)) as [|a [|b r]]; reflexivity.
+  Qed.
+
+  (* under strict, attribute assignment never extends the registry nor the attribute dictionary *)
+  Lemma setattr_var_frame name value s :
+    let s' := fst (setattr_var name value s) in
+    registry s' = registry s /\ adict s' = adict s /\ strict s' = strict s /\ index s' = index s.
+  Proof.
+    unfold Container.setattr_var.
+    destruct (assoc name (vars s)) as [v|]; [|simpl; auto].
+    destruct (is_sequence value).
+    - destruct (as_array value) as [[sh cells]|e0]; [|simpl; auto].
+      destruct (cast_all (pycast (vdtype v)) cells) as [cells'|e0]; [|simpl; auto].
+      destruct (negb (Nat.eqb (length sh) 1) || negb (Nat.eqb (hd 0 sh) (n_of s)))%bool; simpl; auto.
+    - destruct (vshape v) as [|m [|m' r]]; simpl; auto.
+      destruct (assign_inplace v (seq 0 m) value) as [v' eo]. simpl. auto.
+  Qed.
+
+  Theorem strict_updates_keep_working name value hint s :
+    mem name (index s) = true ->
+    setattr name value hint s = setattr_var name value s /\
+    setitem (KName name) value s = setattr_var name value s.
+  Proof.
+    intros M. split; [apply setattr_on_var; exact M|].
+    unfold Container.setitem. rewrite M. simpl. apply setattr_on_var. exact M.
+  Qed.
+
+  (* whole-series assignment and add_variable never read the strict flag *)
+  Theorem setattr_var_ignores_strict name value s b :
+    setattr_var name value (set_strict s b) =
+    (set_strict (fst (setattr_var name value s)) b, snd (setattr_var name value s)).
+  Proof.
+    unfold Container.setattr_var. simpl.
+    destruct (assoc name (vars s)) as [v|]; [|reflexivity].
+    destruct (is_sequence value).
+    - destruct (as_array value) as [[sh cells]|e0]; [|reflexivity].
+      destruct (cast_all (pycast (vdtype v)) cells) as [cells'|e0]; [|reflexivity].
+      unfold n_of. simpl.
+      destruct (negb (Nat.eqb (length sh) 1) || negb (Nat.eqb (hd 0 sh) (length (span s))))%bool; reflexivity.
+    - destruct (vshape v) as [|m [|m' r]]; try reflexivity.
+      destruct (assign_inplace v (seq 0 m) value) as [v' eo]. reflexivity.
+  Qed.
+
+  Theorem add_variable_ignores_strict name value dt s b :
+    add_variable name value dt (set_strict s b) =
+    (set_strict (fst (add_variable name value dt s)) b, snd (add_variable name value dt s)).
+  Proof.
+    assert (B : forall dt0, base_add_variable name value dt0 (set_strict s b) =
+                            (set_strict (fst (base_add_variable name value dt0 s)) b, snd (base_add_variable name value dt0 s))).
+    { intros dt0. unfold Container.base_add_variable, n_of. simpl.
+      destruct (mem name (index s)); [reflexivity|].
+      match goal with |- context [match ?x with Ret _ => _ | Raise _ => _ end] => destruct x as [[[d0 m0] cells0]|e] end; [|reflexivity].
+      match goal with |- context [match ?x with Ret _ => _ | Raise _ => _ end] => destruct x as [[d1 cells1]|e] end; [|reflexivity].
+      destruct (negb (Nat.eqb m0 (length (span s)))); reflexivity. }
+    unfold Container.add_variable. simpl.
+    destruct (kind s); [apply B| |];
+      (rewrite B; destruct (base_add_variable name value (match dt with None => dflt s | Some _ => dt end) s) as [s1 [u|e]]; reflexivity).
+  Qed.
+
+  (* ================================================================ constructors *)
+  Theorem inv_init_vc sp st : Inv (init_vc sp st).
+  Proof.
+    split; [|intros K; exfalso; apply K; reflexivity].
+    repeat split; simpl; [constructor | intros x [] | intros x v E; discriminate].
+  Qed.
+
+  Lemma bind_ret (r : res) f s u :
+    bind r f = (s, Ret u) -> exists s1 u1, r = (s1, Ret u1) /\ f s1 = (s, Ret u).
+  Proof.
+    unfold bind. destruct r as [s1 [u1|e]]; intros H; [|inversion H]. exists s1, u1. split; [reflexivity|exact H].
+  Qed.
+
+  Lemma init_vars_good nms ivs default d s : good s (fst (init_vars nms ivs default d s)).
+  Proof.
+    revert s. induction nms as [|x nms IH]; intros s; simpl; [apply gs_refl|].
+    apply bind_good; [apply base_add_variable_good | intros s'; apply IH].
+  Qed.
+
+  Lemma init_vars_ret nms ivs default d s s' u :
+    init_vars nms ivs default d s = (s', Ret u) -> incl nms (index s').
+  Proof.
+    revert s. induction nms as [|x nms IH]; intros s H; [intros ? []|].
+    simpl in H.
+    destruct (base_add_variable x (match assoc x ivs with Some v => v | None => default end) (Some d) s) as [s1 [u1|e1]] eqn:B; [|inversion H].
+    apply base_add_variable_ret in B as [BI _].
+    pose proof (init_vars_good nms ivs default d s1) as G. rewrite H in G. simpl in G.
+    intros y [<-|Hy]; [|eapply IH; eassumption].
+    apply (proj1 (good_mono _ _ G)). rewrite BI. apply in_app_iff. right. left. reflexivity.
+  Qed.
+
+  Lemma good_of (f : state -> res) s s' r : (forall s0, good s0 (fst (f s0))) -> f s = (s', r) -> good s s'.
+  Proof. intros F E. pose proof (F s) as G. rewrite E in G. exact G. Qed.
+
+  Lemma invV_set_names s nm : InvV s -> InvV (set_names s nm).
+  Proof. intros H. exact H. Qed.
+
+  (* a successfully constructed BaseModel / BaseLinker satisfies the invariant *)
+  Theorem inv_init_model k sp st d default NAMES ivs s u :
+    k <> CVC ->
+    init_model k sp st d default NAMES ivs = (s, Ret u) -> Inv s.
+  Proof.
+    intros KN H. unfold Container.init_model in H.
+    apply bind_ret in H as (s1 & u1 & H1 & H).
+    apply bind_ret in H as (s2 & u2 & H2 & H).
+    apply bind_ret in H as (s3 & u3 & H3 & H).
+    destruct (negb (dup_free NAMES)); [inversion H|].
+    match type of H with context [if ?c then _ else _] => destruct c end; [inversion H|].
+    apply bind_ret in H as (s4 & u4 & H4 & H).
+    apply bind_ret in H as (s5 & u5 & H5 & H).
+    apply bind_ret in H as (s6 & u6 & H6 & H).
+    apply bind_ret in H as (s7 & u7 & H7 & H).
+    apply bind_ret in H as (s8 & u8 & H8 & H).
+    apply bind_ret in H as (s9 & u9 & H9 & H).
+    set (s0 := mkState sp [] [] core_registry [] st k [] None) in *.
+    assert (I0 : InvV s0) by (repeat split; simpl; [constructor | intros x [] | intros x v E; discriminate]).
+    pose proof (good_of (add_attribute "dtype" (dreq_operand d)) _ _ _ (add_attribute_good _ _) H1) as G1.
+    set (s1' := mkState (span s1) (index s1) (vars s1) (registry s1) (adict s1) (strict s1) (kind s1) (names s1) (Some d)) in *.
+    assert (G1' : good s1 s1') by (apply gs_meta; reflexivity).
+    pose proof (good_of (base_add_variable "status" (OScalar (PStr "-")) None) _ _ _ (base_add_variable_good _ _ _) H2) as G2.
+    pose proof (good_of (base_add_variable "iterations" (OScalar (PInt (-1))) None) _ _ _ (base_add_variable_good _ _ _) H3) as G3.
+    pose proof (good_of (add_attribute "names" (OSeq KList (map (fun x => OScalar (PStr x)) NAMES))) _ _ _ (add_attribute_good _ _) H4) as G4.
+    assert (I4 : InvV (set_names s4 NAMES)).
+    { apply invV_set_names. eapply good_invV; [|exact I0].
+      eapply gs_trans; [exact G1|]. eapply gs_trans; [exact G1'|]. eapply gs_trans; [exact G2|]. eapply gs_trans; [exact G3|exact G4]. }
+    pose proof (good_of (init_vars NAMES ivs default d) _ _ _ (init_vars_good _ _ _ _) H5) as G5.
+    pose proof (good_of (add_attribute "lags" (OScalar (PInt 0))) _ _ _ (add_attribute_good _ _) H6) as G6.
+    pose proof (good_of (add_attribute "leads" (OScalar (PInt 0))) _ _ _ (add_attribute_good _ _) H7) as G7.
+    pose proof (good_of (add_attribute "endogenous" (OSeq KList [])) _ _ _ (add_attribute_good _ _) H8) as G8.
+    pose proof (good_of (add_attribute "check" (OSeq KList [])) _ _ _ (add_attribute_good _ _) H9) as G9.
+    assert (G59 : good s5 s9) by (eapply gs_trans; [exact G6|]; eapply gs_trans; [exact G7|]; eapply gs_trans; [exact G8|exact G9]).
+    assert (Gfin : good s9 s).
+    { destruct k; [contradiction| |].
+      - exact (good_of (add_attribute "engine" (OScalar (PStr "python"))) _ _ _ (add_attribute_good _ _) H).
+      - inversion H; subst. apply gs_refl. }
+    assert (Gall : good (set_names s4 NAMES) s) by (eapply gs_trans; [exact G5|]; eapply gs_trans; [exact G59|exact Gfin]).
+    split; [eapply good_invV; eassumption|].
+    intros _. destruct (good_mono _ _ Gall) as [_ [_ [l [N L]]]]. simpl in N. rewrite N.
+    apply incl_app; [|exact L].
+    eapply incl_tran; [eapply init_vars_ret; exact H5|].
+    apply (proj1 (good_mono _ _ (gs_trans _ _ _ G59 Gfin))).
+  Qed.
 End Facts.
